@@ -67,6 +67,12 @@ def _gen_cases(tier, seed):
                 plist.append([{'at': ['exit', label, k], 'act': act}])
                 for end in (['kill', 'k2'], ['fail', 'f'], ['play'], ['resume', ['v']]):
                     plist.append([{'at': ['exit', label, k], 'act': act}, {'at': 'q', 'act': end}])
+        # a holder of the process's future resolves it with an exception of their own while the process is live, alone and followed by a
+        # request that lets the process go on
+        for s0 in range(0, n + 1):
+            plist.append([{'at': s0, 'act': ['foreign_exception', 'x']}])
+            for end in (['resume', ['v']], ['play'], ['kill', 'k2'], ['pause', 'p']):
+                plist.append([{'at': s0, 'act': ['foreign_exception', 'x']}, {'at': 'q', 'act': end}])
         if tier == 'thorough':
             plist += list(plans.sampled_placements(rng, n, ALPHABET, 3, 300))
         deep = ()
